@@ -1,1 +1,208 @@
-//! C18 — (harnesses not written yet)
+//! C18 — a shape's announced byte size equals what its serialisation emits.
+use crate::env::*;
+use crate::model::*;
+use crate::refcodec::*;
+use shapefile::record::{ConcreteReadableShape, ReadableShape, WritableShape};
+use shapefile::*;
+
+/// Part/point counts are concrete per cell; every coordinate is symbolic (ring ends
+/// pinned so that closing is decided by constant folding): the size may not depend on them.
+pub fn sizes<S: TShape, const N: usize>(parts: &[usize], kinds: &[i32], open: &[usize], closed: &[usize]) {
+    let mut m = Model::with_structure(S::CODE, parts);
+    let mut i = 0;
+    while i < kinds.len() {
+        m.pkind[i] = kinds[i];
+        i += 1;
+    }
+    sym_vertices(&mut m);
+    let mut i = 0;
+    while i < open.len() {
+        pin_open(&mut m, open[i], 1.0, 2.0);
+        i += 1;
+    }
+    let mut i = 0;
+    while i < closed.len() {
+        pin_closed(&mut m, closed[i], [1.0, 2.0, 3.0, 4.0]);
+        i += 1;
+    }
+    assume_xy_not_nan(&m);
+    let s = S::build(&m);
+    let announced = s.size_in_bytes();
+    let mut sink = CountSink::new();
+    let r = s.write_to(&mut sink);
+    assert!(r.is_ok());
+    std::mem::forget(r);
+    assert!(sink.bytes == announced);
+    // independent expectation from the whitepaper layout for what the constructor built
+    let mut built = s.extract();
+    built.with_m = may_have_m(S::CODE);
+    assert!(content_size(&built) == announced + 4);
+    // through the writer: record header content length (16-bit words) and file length
+    let mut shp = MemFile::<N>::new();
+    {
+        let mut w = ShapeWriter::new(&mut shp);
+        let r = w.write_shape(&s);
+        assert!(r.is_ok());
+        std::mem::forget(r);
+    }
+    assert!((announced + 4) % 2 == 0);
+    assert!(get_i32_be(&shp.buf, 104) as usize == (announced + 4) / 2);
+    assert!(get_i32_be(&shp.buf, 100) == 1);
+    assert!(shp.len == 100 + 8 + 4 + announced);
+    assert!(get_i32_be(&shp.buf, 24) as usize * 2 == shp.len);
+    kani::cover!(shp.len > 100, "a record was written");
+}
+
+macro_rules! cell {
+    ($name:ident, $T:ty, $N:expr, $parts:expr, $kinds:expr, $open:expr, $closed:expr) => {
+        #[kani::proof]
+        #[kani::unwind(22)]
+        fn $name() {
+            sizes::<$T, $N>(&$parts, &$kinds, &$open, &$closed);
+        }
+    };
+}
+
+// ---- generated grid (see the generator in git history: bin/gen notes in DESIGN.md) ----
+// H: tier=quick; sym=every coordinate of 1 vertices (f64, X/Y non-NaN); structure=Point parts [] kinds [] open [] closed []; asserts=size_in_bytes == bytes emitted == whitepaper size; record header content length == (size+4)/2 words; file length field
+cell!(c18_q_point, Point, 160, [], [], [], []);
+// H: tier=quick; sym=every coordinate of 1 vertices (f64, X/Y non-NaN); structure=PointM parts [] kinds [] open [] closed []; asserts=size_in_bytes == bytes emitted == whitepaper size; record header content length == (size+4)/2 words; file length field
+cell!(c18_q_pointm, PointM, 160, [], [], [], []);
+// H: tier=quick; sym=every coordinate of 1 vertices (f64, X/Y non-NaN); structure=PointZ parts [] kinds [] open [] closed []; asserts=size_in_bytes == bytes emitted == whitepaper size; record header content length == (size+4)/2 words; file length field
+cell!(c18_q_pointz, PointZ, 160, [], [], [], []);
+// H: tier=quick; sym=every coordinate of 1 vertices (f64, X/Y non-NaN); structure=Multipoint parts [1] kinds [] open [] closed []; asserts=size_in_bytes == bytes emitted == whitepaper size; record header content length == (size+4)/2 words; file length field
+cell!(c18_q_multipoint_1, Multipoint, 192, [1], [], [], []);
+// H: tier=thorough; sym=every coordinate of 2 vertices (f64, X/Y non-NaN); structure=Multipoint parts [2] kinds [] open [] closed []; asserts=size_in_bytes == bytes emitted == whitepaper size; record header content length == (size+4)/2 words; file length field
+cell!(c18_t_multipoint_2, Multipoint, 224, [2], [], [], []);
+// H: tier=thorough; sym=every coordinate of 3 vertices (f64, X/Y non-NaN); structure=Multipoint parts [3] kinds [] open [] closed []; asserts=size_in_bytes == bytes emitted == whitepaper size; record header content length == (size+4)/2 words; file length field
+cell!(c18_t_multipoint_3, Multipoint, 224, [3], [], [], []);
+// H: tier=quick; sym=every coordinate of 4 vertices (f64, X/Y non-NaN); structure=Multipoint parts [4] kinds [] open [] closed []; asserts=size_in_bytes == bytes emitted == whitepaper size; record header content length == (size+4)/2 words; file length field
+cell!(c18_q_multipoint_4, Multipoint, 256, [4], [], [], []);
+// H: tier=thorough; sym=every coordinate of 9 vertices (f64, X/Y non-NaN); structure=Multipoint parts [9] kinds [] open [] closed []; asserts=size_in_bytes == bytes emitted == whitepaper size; record header content length == (size+4)/2 words; file length field
+cell!(c18_t_multipoint_9, Multipoint, 320, [9], [], [], []);
+// H: tier=quick; sym=every coordinate of 1 vertices (f64, X/Y non-NaN); structure=MultipointM parts [1] kinds [] open [] closed []; asserts=size_in_bytes == bytes emitted == whitepaper size; record header content length == (size+4)/2 words; file length field
+cell!(c18_q_multipointm_1, MultipointM, 224, [1], [], [], []);
+// H: tier=thorough; sym=every coordinate of 2 vertices (f64, X/Y non-NaN); structure=MultipointM parts [2] kinds [] open [] closed []; asserts=size_in_bytes == bytes emitted == whitepaper size; record header content length == (size+4)/2 words; file length field
+cell!(c18_t_multipointm_2, MultipointM, 256, [2], [], [], []);
+// H: tier=thorough; sym=every coordinate of 3 vertices (f64, X/Y non-NaN); structure=MultipointM parts [3] kinds [] open [] closed []; asserts=size_in_bytes == bytes emitted == whitepaper size; record header content length == (size+4)/2 words; file length field
+cell!(c18_t_multipointm_3, MultipointM, 256, [3], [], [], []);
+// H: tier=quick; sym=every coordinate of 4 vertices (f64, X/Y non-NaN); structure=MultipointM parts [4] kinds [] open [] closed []; asserts=size_in_bytes == bytes emitted == whitepaper size; record header content length == (size+4)/2 words; file length field
+cell!(c18_q_multipointm_4, MultipointM, 288, [4], [], [], []);
+// H: tier=thorough; sym=every coordinate of 9 vertices (f64, X/Y non-NaN); structure=MultipointM parts [9] kinds [] open [] closed []; asserts=size_in_bytes == bytes emitted == whitepaper size; record header content length == (size+4)/2 words; file length field
+cell!(c18_t_multipointm_9, MultipointM, 416, [9], [], [], []);
+// H: tier=quick; sym=every coordinate of 1 vertices (f64, X/Y non-NaN); structure=MultipointZ parts [1] kinds [] open [] closed []; asserts=size_in_bytes == bytes emitted == whitepaper size; record header content length == (size+4)/2 words; file length field
+cell!(c18_q_multipointz_1, MultipointZ, 256, [1], [], [], []);
+// H: tier=thorough; sym=every coordinate of 2 vertices (f64, X/Y non-NaN); structure=MultipointZ parts [2] kinds [] open [] closed []; asserts=size_in_bytes == bytes emitted == whitepaper size; record header content length == (size+4)/2 words; file length field
+cell!(c18_t_multipointz_2, MultipointZ, 288, [2], [], [], []);
+// H: tier=thorough; sym=every coordinate of 3 vertices (f64, X/Y non-NaN); structure=MultipointZ parts [3] kinds [] open [] closed []; asserts=size_in_bytes == bytes emitted == whitepaper size; record header content length == (size+4)/2 words; file length field
+cell!(c18_t_multipointz_3, MultipointZ, 320, [3], [], [], []);
+// H: tier=quick; sym=every coordinate of 4 vertices (f64, X/Y non-NaN); structure=MultipointZ parts [4] kinds [] open [] closed []; asserts=size_in_bytes == bytes emitted == whitepaper size; record header content length == (size+4)/2 words; file length field
+cell!(c18_q_multipointz_4, MultipointZ, 352, [4], [], [], []);
+// H: tier=thorough; sym=every coordinate of 9 vertices (f64, X/Y non-NaN); structure=MultipointZ parts [9] kinds [] open [] closed []; asserts=size_in_bytes == bytes emitted == whitepaper size; record header content length == (size+4)/2 words; file length field
+cell!(c18_t_multipointz_9, MultipointZ, 512, [9], [], [], []);
+// H: tier=quick; sym=every coordinate of 2 vertices (f64, X/Y non-NaN); structure=Polyline parts [2] kinds [] open [] closed []; asserts=size_in_bytes == bytes emitted == whitepaper size; record header content length == (size+4)/2 words; file length field
+cell!(c18_q_polyline_2, Polyline, 224, [2], [], [], []);
+// H: tier=thorough; sym=every coordinate of 3 vertices (f64, X/Y non-NaN); structure=Polyline parts [3] kinds [] open [] closed []; asserts=size_in_bytes == bytes emitted == whitepaper size; record header content length == (size+4)/2 words; file length field
+cell!(c18_t_polyline_3, Polyline, 224, [3], [], [], []);
+// H: tier=thorough; sym=every coordinate of 4 vertices (f64, X/Y non-NaN); structure=Polyline parts [2, 2] kinds [] open [] closed []; asserts=size_in_bytes == bytes emitted == whitepaper size; record header content length == (size+4)/2 words; file length field
+cell!(c18_t_polyline_2_2, Polyline, 256, [2, 2], [], [], []);
+// H: tier=quick; sym=every coordinate of 5 vertices (f64, X/Y non-NaN); structure=Polyline parts [2, 3] kinds [] open [] closed []; asserts=size_in_bytes == bytes emitted == whitepaper size; record header content length == (size+4)/2 words; file length field
+cell!(c18_q_polyline_2_3, Polyline, 256, [2, 3], [], [], []);
+// H: tier=thorough; sym=every coordinate of 6 vertices (f64, X/Y non-NaN); structure=Polyline parts [4, 2] kinds [] open [] closed []; asserts=size_in_bytes == bytes emitted == whitepaper size; record header content length == (size+4)/2 words; file length field
+cell!(c18_t_polyline_4_2, Polyline, 288, [4, 2], [], [], []);
+// H: tier=thorough; sym=every coordinate of 9 vertices (f64, X/Y non-NaN); structure=Polyline parts [2, 3, 4] kinds [] open [] closed []; asserts=size_in_bytes == bytes emitted == whitepaper size; record header content length == (size+4)/2 words; file length field
+cell!(c18_t_polyline_2_3_4, Polyline, 352, [2, 3, 4], [], [], []);
+// H: tier=thorough; sym=every coordinate of 9 vertices (f64, X/Y non-NaN); structure=Polyline parts [3, 3, 3] kinds [] open [] closed []; asserts=size_in_bytes == bytes emitted == whitepaper size; record header content length == (size+4)/2 words; file length field
+cell!(c18_t_polyline_3_3_3, Polyline, 352, [3, 3, 3], [], [], []);
+// H: tier=thorough; sym=every coordinate of 8 vertices (f64, X/Y non-NaN); structure=Polyline parts [2, 2, 2, 2] kinds [] open [] closed []; asserts=size_in_bytes == bytes emitted == whitepaper size; record header content length == (size+4)/2 words; file length field
+cell!(c18_t_polyline_2_2_2_2, Polyline, 320, [2, 2, 2, 2], [], [], []);
+// H: tier=quick; sym=every coordinate of 2 vertices (f64, X/Y non-NaN); structure=PolylineM parts [2] kinds [] open [] closed []; asserts=size_in_bytes == bytes emitted == whitepaper size; record header content length == (size+4)/2 words; file length field
+cell!(c18_q_polylinem_2, PolylineM, 256, [2], [], [], []);
+// H: tier=thorough; sym=every coordinate of 3 vertices (f64, X/Y non-NaN); structure=PolylineM parts [3] kinds [] open [] closed []; asserts=size_in_bytes == bytes emitted == whitepaper size; record header content length == (size+4)/2 words; file length field
+cell!(c18_t_polylinem_3, PolylineM, 288, [3], [], [], []);
+// H: tier=thorough; sym=every coordinate of 4 vertices (f64, X/Y non-NaN); structure=PolylineM parts [2, 2] kinds [] open [] closed []; asserts=size_in_bytes == bytes emitted == whitepaper size; record header content length == (size+4)/2 words; file length field
+cell!(c18_t_polylinem_2_2, PolylineM, 288, [2, 2], [], [], []);
+// H: tier=quick; sym=every coordinate of 5 vertices (f64, X/Y non-NaN); structure=PolylineM parts [2, 3] kinds [] open [] closed []; asserts=size_in_bytes == bytes emitted == whitepaper size; record header content length == (size+4)/2 words; file length field
+cell!(c18_q_polylinem_2_3, PolylineM, 320, [2, 3], [], [], []);
+// H: tier=thorough; sym=every coordinate of 6 vertices (f64, X/Y non-NaN); structure=PolylineM parts [4, 2] kinds [] open [] closed []; asserts=size_in_bytes == bytes emitted == whitepaper size; record header content length == (size+4)/2 words; file length field
+cell!(c18_t_polylinem_4_2, PolylineM, 352, [4, 2], [], [], []);
+// H: tier=thorough; sym=every coordinate of 9 vertices (f64, X/Y non-NaN); structure=PolylineM parts [2, 3, 4] kinds [] open [] closed []; asserts=size_in_bytes == bytes emitted == whitepaper size; record header content length == (size+4)/2 words; file length field
+cell!(c18_t_polylinem_2_3_4, PolylineM, 416, [2, 3, 4], [], [], []);
+// H: tier=thorough; sym=every coordinate of 9 vertices (f64, X/Y non-NaN); structure=PolylineM parts [3, 3, 3] kinds [] open [] closed []; asserts=size_in_bytes == bytes emitted == whitepaper size; record header content length == (size+4)/2 words; file length field
+cell!(c18_t_polylinem_3_3_3, PolylineM, 416, [3, 3, 3], [], [], []);
+// H: tier=thorough; sym=every coordinate of 8 vertices (f64, X/Y non-NaN); structure=PolylineM parts [2, 2, 2, 2] kinds [] open [] closed []; asserts=size_in_bytes == bytes emitted == whitepaper size; record header content length == (size+4)/2 words; file length field
+cell!(c18_t_polylinem_2_2_2_2, PolylineM, 416, [2, 2, 2, 2], [], [], []);
+// H: tier=quick; sym=every coordinate of 2 vertices (f64, X/Y non-NaN); structure=PolylineZ parts [2] kinds [] open [] closed []; asserts=size_in_bytes == bytes emitted == whitepaper size; record header content length == (size+4)/2 words; file length field
+cell!(c18_q_polylinez_2, PolylineZ, 288, [2], [], [], []);
+// H: tier=thorough; sym=every coordinate of 3 vertices (f64, X/Y non-NaN); structure=PolylineZ parts [3] kinds [] open [] closed []; asserts=size_in_bytes == bytes emitted == whitepaper size; record header content length == (size+4)/2 words; file length field
+cell!(c18_t_polylinez_3, PolylineZ, 320, [3], [], [], []);
+// H: tier=thorough; sym=every coordinate of 4 vertices (f64, X/Y non-NaN); structure=PolylineZ parts [2, 2] kinds [] open [] closed []; asserts=size_in_bytes == bytes emitted == whitepaper size; record header content length == (size+4)/2 words; file length field
+cell!(c18_t_polylinez_2_2, PolylineZ, 352, [2, 2], [], [], []);
+// H: tier=quick; sym=every coordinate of 5 vertices (f64, X/Y non-NaN); structure=PolylineZ parts [2, 3] kinds [] open [] closed []; asserts=size_in_bytes == bytes emitted == whitepaper size; record header content length == (size+4)/2 words; file length field
+cell!(c18_q_polylinez_2_3, PolylineZ, 384, [2, 3], [], [], []);
+// H: tier=thorough; sym=every coordinate of 6 vertices (f64, X/Y non-NaN); structure=PolylineZ parts [4, 2] kinds [] open [] closed []; asserts=size_in_bytes == bytes emitted == whitepaper size; record header content length == (size+4)/2 words; file length field
+cell!(c18_t_polylinez_4_2, PolylineZ, 416, [4, 2], [], [], []);
+// H: tier=thorough; sym=every coordinate of 9 vertices (f64, X/Y non-NaN); structure=PolylineZ parts [2, 3, 4] kinds [] open [] closed []; asserts=size_in_bytes == bytes emitted == whitepaper size; record header content length == (size+4)/2 words; file length field
+cell!(c18_t_polylinez_2_3_4, PolylineZ, 512, [2, 3, 4], [], [], []);
+// H: tier=thorough; sym=every coordinate of 9 vertices (f64, X/Y non-NaN); structure=PolylineZ parts [3, 3, 3] kinds [] open [] closed []; asserts=size_in_bytes == bytes emitted == whitepaper size; record header content length == (size+4)/2 words; file length field
+cell!(c18_t_polylinez_3_3_3, PolylineZ, 512, [3, 3, 3], [], [], []);
+// H: tier=thorough; sym=every coordinate of 8 vertices (f64, X/Y non-NaN); structure=PolylineZ parts [2, 2, 2, 2] kinds [] open [] closed []; asserts=size_in_bytes == bytes emitted == whitepaper size; record header content length == (size+4)/2 words; file length field
+cell!(c18_t_polylinez_2_2_2_2, PolylineZ, 480, [2, 2, 2, 2], [], [], []);
+// H: tier=quick; sym=every coordinate of 4 vertices (f64, X/Y non-NaN); structure=Polygon parts [4] kinds [0] open [] closed [0]; asserts=size_in_bytes == bytes emitted == whitepaper size; record header content length == (size+4)/2 words; file length field
+cell!(c18_q_polygon_c4, Polygon, 256, [4], [0], [], [0]);
+// H: tier=thorough; sym=every coordinate of 3 vertices (f64, X/Y non-NaN); structure=Polygon parts [3] kinds [0] open [0] closed []; asserts=size_in_bytes == bytes emitted == whitepaper size; record header content length == (size+4)/2 words; file length field
+cell!(c18_t_polygon_o3, Polygon, 256, [3], [0], [0], []);
+// H: tier=thorough; sym=every coordinate of 8 vertices (f64, X/Y non-NaN); structure=Polygon parts [4, 4] kinds [0, 0] open [] closed [0, 1]; asserts=size_in_bytes == bytes emitted == whitepaper size; record header content length == (size+4)/2 words; file length field
+cell!(c18_t_polygon_c4_c4, Polygon, 320, [4, 4], [0, 0], [], [0, 1]);
+// H: tier=quick; sym=every coordinate of 7 vertices (f64, X/Y non-NaN); structure=Polygon parts [3, 4] kinds [0, 0] open [0] closed [1]; asserts=size_in_bytes == bytes emitted == whitepaper size; record header content length == (size+4)/2 words; file length field
+cell!(c18_q_polygon_o3_c4, Polygon, 320, [3, 4], [0, 0], [0], [1]);
+// H: tier=thorough; sym=every coordinate of 12 vertices (f64, X/Y non-NaN); structure=Polygon parts [4, 3, 5] kinds [0, 0, 0] open [1] closed [0, 2]; asserts=size_in_bytes == bytes emitted == whitepaper size; record header content length == (size+4)/2 words; file length field
+cell!(c18_t_polygon_c4_o3_c5, Polygon, 416, [4, 3, 5], [0, 0, 0], [1], [0, 2]);
+// H: tier=thorough; sym=every coordinate of 1 vertices (f64, X/Y non-NaN); structure=Polygon parts [1] kinds [0] open [] closed [0]; asserts=size_in_bytes == bytes emitted == whitepaper size; record header content length == (size+4)/2 words; file length field
+cell!(c18_t_polygon_c1, Polygon, 192, [1], [0], [], [0]);
+// H: tier=thorough; sym=every coordinate of 2 vertices (f64, X/Y non-NaN); structure=Polygon parts [2] kinds [0] open [0] closed []; asserts=size_in_bytes == bytes emitted == whitepaper size; record header content length == (size+4)/2 words; file length field
+cell!(c18_t_polygon_o2, Polygon, 224, [2], [0], [0], []);
+// H: tier=quick; sym=every coordinate of 4 vertices (f64, X/Y non-NaN); structure=PolygonM parts [4] kinds [0] open [] closed [0]; asserts=size_in_bytes == bytes emitted == whitepaper size; record header content length == (size+4)/2 words; file length field
+cell!(c18_q_polygonm_c4, PolygonM, 288, [4], [0], [], [0]);
+// H: tier=thorough; sym=every coordinate of 3 vertices (f64, X/Y non-NaN); structure=PolygonM parts [3] kinds [0] open [0] closed []; asserts=size_in_bytes == bytes emitted == whitepaper size; record header content length == (size+4)/2 words; file length field
+cell!(c18_t_polygonm_o3, PolygonM, 288, [3], [0], [0], []);
+// H: tier=thorough; sym=every coordinate of 8 vertices (f64, X/Y non-NaN); structure=PolygonM parts [4, 4] kinds [0, 0] open [] closed [0, 1]; asserts=size_in_bytes == bytes emitted == whitepaper size; record header content length == (size+4)/2 words; file length field
+cell!(c18_t_polygonm_c4_c4, PolygonM, 384, [4, 4], [0, 0], [], [0, 1]);
+// H: tier=quick; sym=every coordinate of 7 vertices (f64, X/Y non-NaN); structure=PolygonM parts [3, 4] kinds [0, 0] open [0] closed [1]; asserts=size_in_bytes == bytes emitted == whitepaper size; record header content length == (size+4)/2 words; file length field
+cell!(c18_q_polygonm_o3_c4, PolygonM, 384, [3, 4], [0, 0], [0], [1]);
+// H: tier=thorough; sym=every coordinate of 12 vertices (f64, X/Y non-NaN); structure=PolygonM parts [4, 3, 5] kinds [0, 0, 0] open [1] closed [0, 2]; asserts=size_in_bytes == bytes emitted == whitepaper size; record header content length == (size+4)/2 words; file length field
+cell!(c18_t_polygonm_c4_o3_c5, PolygonM, 512, [4, 3, 5], [0, 0, 0], [1], [0, 2]);
+// H: tier=thorough; sym=every coordinate of 1 vertices (f64, X/Y non-NaN); structure=PolygonM parts [1] kinds [0] open [] closed [0]; asserts=size_in_bytes == bytes emitted == whitepaper size; record header content length == (size+4)/2 words; file length field
+cell!(c18_t_polygonm_c1, PolygonM, 224, [1], [0], [], [0]);
+// H: tier=thorough; sym=every coordinate of 2 vertices (f64, X/Y non-NaN); structure=PolygonM parts [2] kinds [0] open [0] closed []; asserts=size_in_bytes == bytes emitted == whitepaper size; record header content length == (size+4)/2 words; file length field
+cell!(c18_t_polygonm_o2, PolygonM, 288, [2], [0], [0], []);
+// H: tier=quick; sym=every coordinate of 4 vertices (f64, X/Y non-NaN); structure=PolygonZ parts [4] kinds [0] open [] closed [0]; asserts=size_in_bytes == bytes emitted == whitepaper size; record header content length == (size+4)/2 words; file length field
+cell!(c18_q_polygonz_c4, PolygonZ, 352, [4], [0], [], [0]);
+// H: tier=thorough; sym=every coordinate of 3 vertices (f64, X/Y non-NaN); structure=PolygonZ parts [3] kinds [0] open [0] closed []; asserts=size_in_bytes == bytes emitted == whitepaper size; record header content length == (size+4)/2 words; file length field
+cell!(c18_t_polygonz_o3, PolygonZ, 352, [3], [0], [0], []);
+// H: tier=thorough; sym=every coordinate of 8 vertices (f64, X/Y non-NaN); structure=PolygonZ parts [4, 4] kinds [0, 0] open [] closed [0, 1]; asserts=size_in_bytes == bytes emitted == whitepaper size; record header content length == (size+4)/2 words; file length field
+cell!(c18_t_polygonz_c4_c4, PolygonZ, 480, [4, 4], [0, 0], [], [0, 1]);
+// H: tier=quick; sym=every coordinate of 7 vertices (f64, X/Y non-NaN); structure=PolygonZ parts [3, 4] kinds [0, 0] open [0] closed [1]; asserts=size_in_bytes == bytes emitted == whitepaper size; record header content length == (size+4)/2 words; file length field
+cell!(c18_q_polygonz_o3_c4, PolygonZ, 480, [3, 4], [0, 0], [0], [1]);
+// H: tier=thorough; sym=every coordinate of 12 vertices (f64, X/Y non-NaN); structure=PolygonZ parts [4, 3, 5] kinds [0, 0, 0] open [1] closed [0, 2]; asserts=size_in_bytes == bytes emitted == whitepaper size; record header content length == (size+4)/2 words; file length field
+cell!(c18_t_polygonz_c4_o3_c5, PolygonZ, 640, [4, 3, 5], [0, 0, 0], [1], [0, 2]);
+// H: tier=thorough; sym=every coordinate of 1 vertices (f64, X/Y non-NaN); structure=PolygonZ parts [1] kinds [0] open [] closed [0]; asserts=size_in_bytes == bytes emitted == whitepaper size; record header content length == (size+4)/2 words; file length field
+cell!(c18_t_polygonz_c1, PolygonZ, 256, [1], [0], [], [0]);
+// H: tier=thorough; sym=every coordinate of 2 vertices (f64, X/Y non-NaN); structure=PolygonZ parts [2] kinds [0] open [0] closed []; asserts=size_in_bytes == bytes emitted == whitepaper size; record header content length == (size+4)/2 words; file length field
+cell!(c18_t_polygonz_o2, PolygonZ, 320, [2], [0], [0], []);
+// H: tier=quick; sym=every coordinate of 3 vertices (f64, X/Y non-NaN); structure=Multipatch parts [3] kinds [0] open [] closed []; asserts=size_in_bytes == bytes emitted == whitepaper size; record header content length == (size+4)/2 words; file length field
+cell!(c18_q_multipatch_k0x3, Multipatch, 320, [3], [0], [], []);
+// H: tier=thorough; sym=every coordinate of 3 vertices (f64, X/Y non-NaN); structure=Multipatch parts [3] kinds [1] open [] closed []; asserts=size_in_bytes == bytes emitted == whitepaper size; record header content length == (size+4)/2 words; file length field
+cell!(c18_t_multipatch_k1x3, Multipatch, 320, [3], [1], [], []);
+// H: tier=quick; sym=every coordinate of 4 vertices (f64, X/Y non-NaN); structure=Multipatch parts [4] kinds [2] open [] closed [0]; asserts=size_in_bytes == bytes emitted == whitepaper size; record header content length == (size+4)/2 words; file length field
+cell!(c18_q_multipatch_k2c4, Multipatch, 352, [4], [2], [], [0]);
+// H: tier=thorough; sym=every coordinate of 3 vertices (f64, X/Y non-NaN); structure=Multipatch parts [3] kinds [3] open [0] closed []; asserts=size_in_bytes == bytes emitted == whitepaper size; record header content length == (size+4)/2 words; file length field
+cell!(c18_t_multipatch_k3o3, Multipatch, 352, [3], [3], [0], []);
+// H: tier=quick; sym=every coordinate of 7 vertices (f64, X/Y non-NaN); structure=Multipatch parts [3, 4] kinds [0, 4] open [] closed [1]; asserts=size_in_bytes == bytes emitted == whitepaper size; record header content length == (size+4)/2 words; file length field
+cell!(c18_q_multipatch_k0x3_k4c4, Multipatch, 448, [3, 4], [0, 4], [], [1]);
+// H: tier=thorough; sym=every coordinate of 6 vertices (f64, X/Y non-NaN); structure=Multipatch parts [3, 3] kinds [1, 5] open [1] closed []; asserts=size_in_bytes == bytes emitted == whitepaper size; record header content length == (size+4)/2 words; file length field
+cell!(c18_t_multipatch_k1x3_k5o3, Multipatch, 448, [3, 3], [1, 5], [1], []);
+// H: tier=thorough; sym=every coordinate of 10 vertices (f64, X/Y non-NaN); structure=Multipatch parts [4, 3, 3] kinds [2, 3, 0] open [1] closed [0]; asserts=size_in_bytes == bytes emitted == whitepaper size; record header content length == (size+4)/2 words; file length field
+cell!(c18_t_multipatch_k2c4_k3o3_k0x3, Multipatch, 576, [4, 3, 3], [2, 3, 0], [1], [0]);
+// H: tier=thorough; sym=every coordinate of 14 vertices (f64, X/Y non-NaN); structure=Multipatch parts [3, 4, 3, 4] kinds [5, 4, 1, 2] open [0] closed [1, 3]; asserts=size_in_bytes == bytes emitted == whitepaper size; record header content length == (size+4)/2 words; file length field
+cell!(c18_t_multipatch_k5o3_k4c4_k1x3_k2c4, Multipatch, 736, [3, 4, 3, 4], [5, 4, 1, 2], [0], [1, 3]);
